@@ -31,7 +31,7 @@ func gqDesc(s string) *sn {
 	if s == "" {
 		return nil
 	}
-	return mk("desc", s)
+	return mk("desc", leftTrimLines(s))
 }
 
 func gqType(t *gast.Type) *sn {
@@ -64,7 +64,7 @@ func gqValue(v *gast.Value) *sn {
 	case gast.StringValue:
 		return mk("string", v.Raw)
 	case gast.BlockValue:
-		return mk("blockstring", v.Raw)
+		return mk("blockstring", leftTrimLines(v.Raw))
 	case gast.BooleanValue:
 		return mk("bool", v.Raw)
 	case gast.NullValue:
